@@ -136,6 +136,17 @@ func (e *Environment) Has(name string) bool {
 	return false
 }
 
+// HasBelow checks if a variable exists in the environment or one of its parent
+// scopes below limit; limit itself and the scopes above it are not consulted.
+func (e *Environment) HasBelow(name string, limit *Environment) bool {
+	for scope := e; scope != nil && scope != limit; scope = scope.parent {
+		if _, ok := scope.vars[name]; ok {
+			return true
+		}
+	}
+	return false
+}
+
 // HasLocal checks if a variable exists in the current scope only (no parent lookup)
 func (e *Environment) HasLocal(name string) bool {
 	_, ok := e.vars[name]
